@@ -457,7 +457,10 @@ inductive Val (N : Type) where
   | bool (b : Bool)
   | num (n : N)
   | str (s : Str)
-  | list (vs : Vals N)
+  /-- a `[]interface{}`: `addr` identifies the backing array of a list held by the environment
+      (0 = a fresh list, the value of a list literal: never shared), `isNil` = nil slice (what the
+      literal `[]` evaluates to; an empty list from the host may be non-nil) -/
+  | list (addr : Nat) (isNil : Bool) (vs : Vals N)
 inductive Vals (N : Type) where
   | nil
   | cons (v : Val N) (rest : Vals N)
@@ -510,7 +513,13 @@ def Val.eqv (C : Num N) : Val N → Val N → Bool
   | .bool a, .bool b => a == b
   | .num a, .num b => C.eq a b
   | .str a, .str b => a == b
-  | .list a, .list b => Vals.eqv C a b
+  -- reflect.DeepEqual on slices: nil-ness must agree, then the lengths (part of the elementwise
+  -- comparison here), identical backing arrays are equal WITHOUT looking at the elements, otherwise
+  -- element by element
+  | .list a1 n1 vs1, .list a2 n2 vs2 =>
+    if n1 != n2 then false
+    else if a1 != 0 && a1 == a2 then true
+    else Vals.eqv C vs1 vs2
   | _, _ => false
 def Vals.eqv (C : Num N) : Vals N → Vals N → Bool
   | .nil, .nil => true
@@ -528,12 +537,18 @@ def Val.text (C : Num N) : Val N → Str
   | .bool false => [102, 97, 108, 115, 101]     -- "false"
   | .num n => C.text n
   | .str s => s
-  | .list vs => 91 :: (Vals.text C vs ++ [93])  -- "[" … "]"
+  | .list _ _ vs => 91 :: (Vals.text C vs ++ [93])  -- "[" … "]"
 def Vals.text (C : Num N) : Vals N → Str
   | .nil => []
   | .cons v .nil => Val.text C v
   | .cons v rest => Val.text C v ++ (32 :: Vals.text C rest)
 end
+
+/-- the value of a list literal: a fresh slice built by `append`, nil when there is no element -/
+def mkList (vs : Vals N) : Val N :=
+  match vs with
+  | .nil => .list 0 true .nil
+  | vs => .list 0 false vs
 
 /-- the loop of the `in` operator -/
 def Vals.has (C : Num N) (v : Val N) : Vals N → Bool
@@ -656,7 +671,7 @@ def boolOp (f : Bool → Bool → Val N) (n1 n2 : Str) : Out N → Out N → Out
 def listOp (f : Val N → Vals N → Val N) (n2 : Str) : Out N → Out N → Out N
   | .err k s p, _ => .err k s p
   | .val _, .err k s p => .err k s p
-  | .val a, .val (.list vs) => .val (f a vs)
+  | .val a, .val (.list _ _ vs) => .val (f a vs)
   | .val _, .val _ => .err .notAList n2 (some 0)   -- names operand 1, attached to child 0 (as the code does)
 
 /-- comparison operators: `numOp`, and on ANY error of it `strOp` on the same operands
@@ -729,7 +744,7 @@ def eval (G : Cfg N) : Expr → Out N
   | .atom a => .val (atomVal G a)
   | .list its =>
     (match evalItems G its with
-     | .ok vs => .val (.list vs)
+     | .ok vs => .val (mkList vs)
      | .error (k, s, p) => .err k s p)
   | .bin o _ l r => binOp G o (opName l) (opName r) (eval G l) (eval G r)
   | .pre p _ x => preOp G.C p (opName x) (eval G x)
@@ -770,7 +785,7 @@ def logic (f : Bool → Bool → Bool) (n1 n2 : Str) : Val N → Val N → Out N
   | _, _ => .err .notABoolean n1 (some 0)
 
 def member (C : Num N) (neg : Bool) (n2 : Str) : Val N → Val N → Out N
-  | a, .list vs => .val (.bool (neg != Vals.has C a vs))
+  | a, .list _ _ vs => .val (.bool (neg != Vals.has C a vs))
   | _, _ => .err .notAList n2 (some 1)
 
 /-- the meaning of `v1 o v2` for operand VALUES (`n1`, `n2`: how the operands are named) -/
@@ -828,7 +843,7 @@ def eval (G : Cfg N) : Expr → Out N
   | .atom a => .val (Impl.atomVal G a)
   | .list its =>
     (match evalItems G its with
-     | .ok vs => .val (.list vs)
+     | .ok vs => .val (mkList vs)
      | .error (k, s, p) => .err k s p)
   | .bin o _ l r =>
     (match eval G l with
